@@ -818,12 +818,14 @@ theorem sourcesOf_malformed {spec : PrimSpec} (hn : ∀ s ∈ spec.sources, s.na
   · exact ⟨s, hs, _, (buildSource_spec _ s (hn s hs)).2 hbad⟩
 
 theorem resolve_error {srcs : List Src} {i : RawInput} {e : DaeErr}
-    (h : resolve srcs i = .error e) : e = .brokenRef := by
+    (h : resolve srcs i = .error e) : (e = .malformed ∧ i.ref = .bad) ∨ (e = .brokenRef ∧ i.ref ≠ .bad) := by
   unfold resolve at h
   split at h
-  · exact (Except.error.inj h).symm
-  · split at h
-    · exact (Except.error.inj h).symm
+  · next hb => exact Or.inl ⟨(Except.error.inj h).symm, hb⟩
+  · next hv => exact Or.inr ⟨(Except.error.inj h).symm, by rw [hv]; decide⟩
+  · next k hk =>
+    split at h
+    · exact Or.inr ⟨(Except.error.inj h).symm, by rw [hk]; simp⟩
     · cases h
 
 theorem allOk_self {ε : Type} {f : Nat → Except ε Nat} : ∀ {l : List Nat},
